@@ -140,7 +140,8 @@ func (e *c10Exec) submit(t *C10Tx) {
 		panic(fmt.Sprintf("c10 setup: build: %v", err))
 	}
 	if err := n.Chain.SubmitTx(n.BaseCtx(), tx); err != nil {
-		panic(fmt.Sprintf("c10 setup: submit: %v", err))
+		// the read/write set PreExec returned, assembled unchanged and submitted against the same state
+		panic(e.viol(0, "setup", "preexecuted-invocation-rejected", "a set-up transaction built from PreExec's own read/write set was refused: %v | %s", err, descTx(tx)))
 	}
 	// value and liveness come from the PROGRAM, the version from the position of the key in the
 	// transaction's outputs (that is what a version is)
